@@ -134,6 +134,13 @@ def merge(new_by_kernel, K):
     return out
 
 
+def _refusal(ex):
+    """Documented refusals of the engine (not crashes): a duration that is not a multiple of the chunk length, and any
+    sampling call after that (the epoch stays active)."""
+    return isinstance(ex, RuntimeError) and ("not a multiple of the jitted sampling duration" in str(ex)
+                                             or "Epoch is active" in str(ex))
+
+
 def run(ops, K=2, needs_hist=(2,), chains=2, seed=0, J=1, init_cfgs=(), included=(), excluded=(),
         store_kernel_states=False, via_builder=False, meta=None, nq=0, prebuild=False):
     """ops: list of ("append", cfg) | ("next",) | ("all",).  Returns one trace per chain."""
@@ -177,7 +184,7 @@ def run(ops, K=2, needs_hist=(2,), chains=2, seed=0, J=1, init_cfgs=(), included
                 ok = True
             except Exception as ex:  # noqa: BLE001
                 ok = False
-                if more:
+                if more and not _refusal(ex):
                     crashed = f"sample_next_epoch raised {type(ex).__name__}: {ex}"
             for c in range(chains):
                 evs[c].append({"ev": "sample_next", "ok": ok, "crash": crashed or ""})
@@ -190,7 +197,8 @@ def run(ops, K=2, needs_hist=(2,), chains=2, seed=0, J=1, init_cfgs=(), included
                 ok = True
             except Exception as ex:  # noqa: BLE001
                 ok = False
-                crashed = f"sample_all_epochs raised {type(ex).__name__}: {ex}"
+                if not _refusal(ex):
+                    crashed = f"sample_all_epochs raised {type(ex).__name__}: {ex}"
             for c in range(chains):
                 evs[c].append({"ev": "sample_all", "ok": ok, "crash": crashed or ""})
             if crashed:
